@@ -108,9 +108,9 @@ class QueryGen:
     def tail(self):
         r = self.rng
         ob = [(self.expr(0), r.choice([None, None, "ASC", "DESC"])) for _ in range(r.choice([1, 1, 2]))] if r.random() < 0.35 else []
-        lim = r.choice([1, 3, 10]) if r.random() < 0.3 else None
+        lim = r.choice([0, 1, 3, 10]) if r.random() < 0.3 else None       # 0 is falsy in Python
         # every subset of the three trailing clauses occurs (OFFSET alone included)
-        off = r.choice([2, 20]) if r.random() < (0.4 if lim is not None else 0.12) else None
+        off = r.choice([0, 2, 20]) if r.random() < (0.4 if lim is not None else 0.12) else None
         return ob, lim, off
 
     def operand(self, subdepth, allow_paren=True):
